@@ -10,11 +10,13 @@
 package main
 
 import (
+	"bufio"
 	"bytes"
 	"encoding/json"
 	"fmt"
 	"io/ioutil"
 	"net"
+	"net/http"
 	"os"
 	"os/exec"
 	"path/filepath"
@@ -25,6 +27,7 @@ import (
 	"strconv"
 	"strings"
 	"sync"
+	"sync/atomic"
 	"syscall"
 	"time"
 
@@ -122,7 +125,9 @@ type rig struct {
 	dropped    map[string]int
 }
 
-func startRig() *rig {
+func startRig() *rig { return startRigBuf(4) }
+
+func startRigBuf(bufferSize int64) *rig {
 	port := lib.FreePorts(1)[0]
 	r := &rig{cs: ttlcode.NewDefaultCodeStore(), ds: deny.New(), hub: crossbar.New(), denied: make(chan string, 64),
 		aud: "ws://127.0.0.1:" + strconv.Itoa(port), registered: map[string]int{}, dropped: map[string]int{}}
@@ -140,7 +145,7 @@ func startRig() *rig {
 	})
 	var wg sync.WaitGroup
 	wg.Add(1)
-	cfg := crossbar.Config{Listen: port, Audience: r.aud, BufferSize: 4, CodeStore: r.cs, DenyStore: r.ds, Hub: r.hub, StatsEvery: time.Second}
+	cfg := crossbar.Config{Listen: port, Audience: r.aud, BufferSize: bufferSize, CodeStore: r.cs, DenyStore: r.ds, Hub: r.hub, StatsEvery: time.Second}
 	go crossbar.Crossbar(cfg, make(chan struct{}), r.denied, &wg)
 	for i := 0; i < 1000; i++ {
 		c, err := net.DialTimeout("tcp", "127.0.0.1:"+strconv.Itoa(port), 50*time.Millisecond)
@@ -245,8 +250,36 @@ func (r *rig) submit(aud, topic, bid string, scopes []string, nbf, exp int64) st
 	return r.cs.SubmitToken(t)
 }
 
+// oddHeaders: request headers a proxy or a tracing layer may add to a websocket upgrade - forwarded-for
+// in every shape (also malformed and very long), identical request ids on many connections, stale
+// request-start stamps. None of them may change anything.
+var oddHeaderSeq int64
+
+func oddHeaders() http.Header {
+	n := atomic.AddInt64(&oddHeaderSeq, 1)
+	h := http.Header{}
+	xff := []string{"", "203.0.113.7", "203.0.113.7, 10.0.0.1, 10.0.0.2", "203.0.113.7:51234", "[2001:db8::7]:443", "[2001:db8::7", " ", strings.Repeat("10.1.2.3, ", 400) + "10.9.9.9"}
+	if v := xff[n%int64(len(xff))]; v != "" {
+		h.Set("X-Forwarded-For", v)
+	}
+	switch n % 5 {
+	case 0:
+		h.Set("X-Real-Ip", "198.51.100.23")
+	case 1:
+		h.Set("Forwarded", "for=\"[2001:db8::7]:4711\";proto=https;by=203.0.113.43")
+	case 2:
+		h.Set("X-Request-Start", "t=12")
+	case 3:
+		h.Set("X-Request-Start", "not-a-time")
+	}
+	h.Set("X-Request-Id", "same-id-on-every-connection")
+	h.Set("X-Correlation-Id", "same-id-on-every-connection")
+	h.Set("Traceparent", "00-4bf92f3577b34da6a3ce929d0e0e4736-00f067aa0ba902b7-01")
+	return h
+}
+
 func (r *rig) dial(path, code string, smallBuf bool) (*websocket.Conn, error) {
-	d := websocket.Dialer{HandshakeTimeout: 3 * time.Second}
+	d := websocket.Dialer{HandshakeTimeout: 3 * time.Second, EnableCompression: atomic.LoadInt64(&oddHeaderSeq)%4 == 3}
 	if smallBuf {
 		d.NetDial = func(network, addr string) (net.Conn, error) {
 			c, err := net.DialTimeout(network, addr, 3*time.Second)
@@ -260,7 +293,7 @@ func (r *rig) dial(path, code string, smallBuf bool) (*websocket.Conn, error) {
 	if code != "" {
 		u += "?code=" + code
 	}
-	c, _, err := d.Dial(u, nil)
+	c, _, err := d.Dial(u, oddHeaders())
 	return c, err
 }
 
@@ -1053,6 +1086,9 @@ type shutdownReport struct {
 	PumpsLeft    int             `json:"pumps_left"`    // reader/writer/watcher goroutines still there
 	ClientsEnded int             `json:"clients_ended"` // of 3 live client sockets, how many the relay closed
 	PeersClosed  map[string]bool `json:"peers_closed"`  // never-reading feeder / stalled reader: did the relay close their sockets
+	InFlight     map[string]int  `json:"in_flight"`     // requests whose header block was completed AFTER close(closed): HTTP status answered (0 = no answer in 3 s)
+	ReturnedMs   int             `json:"returned_ms"`   // relay.Relay returned this long after close(closed) (-1 = not within 6 s)
+	HandlersLeft int             `json:"handlers_left"` // goroutines still inside an access API handler at the end
 	Running      []string        `json:"running"`       // relay functions of goroutines found running/runnable
 	Left         map[string]int  `json:"left"`          // relay goroutines left, by creation site
 	Err          string          `json:"err,omitempty"`
@@ -1067,6 +1103,7 @@ func cpuMs() int {
 func shutdownChild() {
 	rep := shutdownReport{Left: map[string]int{}}
 	rl := lib.StartRelay(lib.RelayOpts{AllowNoBookingID: true, PruneEvery: time.Minute})
+	log.SetLevel(log.DebugLevel) // output is discarded; the relay must behave the same at debug level
 	var clients []*websocket.Conn
 	ended := make(chan int, 8)
 	for i := 0; i < 3; i++ {
@@ -1132,10 +1169,55 @@ func shutdownChild() {
 			clients[1].WriteMessage(websocket.BinaryMessage, []byte("for the stalled reader"))
 		}
 	}
+	// requests in flight when the shutdown is requested: request line and headers are on the wire,
+	// the end of the header block arrives 300 ms after close(closed). A graceful shutdown lets them
+	// finish: each must be answered, and its handler must not be left behind.
+	rep.InFlight = map[string]int{}
+	type inflight struct {
+		name string
+		conn net.Conn
+	}
+	var flights []inflight
+	hostport := strings.TrimPrefix(rl.AccessURL, "http://")
+	nowS := time.Now().Unix()
+	for _, rq := range []struct{ name, line, bearer string }{
+		{"deny", "POST /bids/deny?bid=late-booking&exp=" + strconv.FormatInt(nowS+3600, 10), rl.AdminBearer("relay:admin")},
+		{"allow", "POST /bids/allow?bid=late-booking2&exp=" + strconv.FormatInt(nowS+3600, 10), rl.AdminBearer("relay:admin")},
+		{"session", "POST /session/sd-late", lib.Sign(rl.Claims("sd-late", "sd-late-bk", []string{"read", "write"}, nowS-5, nowS-5, nowS+3600), rl.Secret)},
+		{"status", "GET /status", rl.AdminBearer("relay:stats")},
+	} {
+		conn, err := net.DialTimeout("tcp", hostport, 2*time.Second)
+		if err != nil {
+			rep.Err = "in-flight dial: " + err.Error()
+			continue
+		}
+		fmt.Fprintf(conn, "%s HTTP/1.1\r\nHost: %s\r\nAuthorization: %s\r\nContent-Length: 0\r\n", rq.line, hostport, rq.bearer)
+		flights = append(flights, inflight{rq.name, conn})
+		rep.InFlight[rq.name] = 0
+	}
 	time.Sleep(300 * time.Millisecond)
 	c0 := cpuMs()
 	time.Sleep(time.Second)
 	rep.CPUBeforeMs = cpuMs() - c0
+	stopAt := time.Now()
+	returned := make(chan struct{})
+	go func() { rl.Wg.Wait(); close(returned) }()
+	var fwg sync.WaitGroup
+	for _, f := range flights {
+		fwg.Add(1)
+		go func(f inflight) {
+			defer fwg.Done()
+			time.Sleep(time.Until(stopAt.Add(300 * time.Millisecond)))
+			f.conn.Write([]byte("\r\n"))
+			f.conn.SetReadDeadline(time.Now().Add(3 * time.Second))
+			if r, err := http.ReadResponse(bufio.NewReader(f.conn), nil); err == nil {
+				r.Body.Close()
+				pmu.Lock()
+				rep.InFlight[f.name] = r.StatusCode
+				pmu.Unlock()
+			}
+		}(f)
+	}
 	rl.Stop() // close(closed)
 	time.Sleep(time.Second)
 	c1 := cpuMs()
@@ -1167,6 +1249,18 @@ loop:
 			break loop
 		}
 	}
+	fwg.Wait()
+	select {
+	case <-returned:
+		rep.ReturnedMs = int(time.Since(stopAt) / time.Millisecond) // upper bound: measured now
+	case <-time.After(time.Until(stopAt.Add(6 * time.Second))):
+		rep.ReturnedMs = -1
+	}
+	for _, g := range strings.Split(goroutineDump(), "\n\n") {
+		if strings.Contains(g, "relay/internal/access.") && strings.Contains(g, "net/http.(*conn).serve") {
+			rep.HandlersLeft++
+		}
+	}
 	if stalled != nil {
 		// data sent to a socket the relay has closed is answered with a reset: a later write fails
 		for n := 0; n < 6; n++ {
@@ -1185,6 +1279,258 @@ loop:
 	b, _ := json.Marshal(rep)
 	pmu.Unlock()
 	fmt.Println("SHUTDOWN-REPORT " + string(b))
+}
+
+// ---------------------------------------------------------------- churn + traffic + status reports (child process)
+
+// churnReport: connections come and go while others talk and status reports are built all the
+// time - the three users of the hub's and the connections' locks at once. It runs in a child
+// process because the failure it looks for is a relay that has locked up.
+type churnReport struct {
+	StatusHung bool   `json:"status_hung"` // a status report did not come back within 3 s
+	Reports    int    `json:"reports"`     // status reports built during the scenario
+	Churned    int    `json:"churned"`
+	Case       *Case  `json:"case"` // the history and the residue measured after it (absent if the relay hung)
+	Stuck      string `json:"stuck,omitempty"`
+	Err        string `json:"err,omitempty"`
+}
+
+// statsGuard builds one status report, giving up after 3 s
+func statsGuard(r *rig) bool {
+	done := make(chan struct{})
+	go func() { r.hub.GetStats(); close(done) }()
+	select {
+	case <-done:
+		return true
+	case <-time.After(3 * time.Second):
+		return false
+	}
+}
+
+func churnChild() {
+	rep := churnReport{}
+	r := startRigBuf(256)        // nobody is to be evicted as a slow reader here
+	log.SetLevel(log.TraceLevel) // everything is logged (to nowhere): behaviour must not depend on the log level
+	tag := "churn"
+	now := time.Now().Unix()
+	c := &Case{Kind: "churn-status"}
+	var cmu sync.Mutex
+	add := func(k Conn) int {
+		cmu.Lock()
+		defer cmu.Unlock()
+		c.Conns = append(c.Conns, k)
+		return len(c.Conns) - 1
+	}
+	connect := func(i, topic int) (*websocket.Conn, error) {
+		tp := fmt.Sprintf("%s-t%d", tag, topic)
+		code := r.submit(r.aud, tp, fmt.Sprintf("%s-b%d", tag, i), []string{"read", "write"}, now-5, now+3600)
+		return r.dial("/session/"+tp, code, false)
+	}
+	for i := 0; i < 2; i++ {
+		runtime.GC()
+		time.Sleep(60 * time.Millisecond)
+	}
+	base := r.measure()
+	stop := make(chan struct{})
+	hung := make(chan struct{})
+	var hungOnce sync.Once
+	var bg sync.WaitGroup
+	// eight talkers, two per topic: they send every 2 ms and read
+	var talkers []*websocket.Conn
+	for t := 1; t <= 4; t++ {
+		for k := 0; k < 2; k++ {
+			i := add(Conn{Outcome: "join", Topic: t, HasBid: true})
+			ws, err := connect(i, t)
+			if err != nil {
+				rep.Err = "talker dial: " + err.Error()
+				continue
+			}
+			talkers = append(talkers, ws)
+			go func(ws *websocket.Conn) {
+				for {
+					if _, _, err := ws.ReadMessage(); err != nil {
+						return
+					}
+				}
+			}(ws)
+			bg.Add(1)
+			go func(ws *websocket.Conn) {
+				defer bg.Done()
+				msg := make([]byte, 200)
+				for {
+					select {
+					case <-stop:
+						return
+					case <-hung:
+						return
+					default:
+					}
+					ws.SetWriteDeadline(time.Now().Add(time.Second))
+					ws.WriteMessage(websocket.BinaryMessage, msg)
+					time.Sleep(2 * time.Millisecond)
+				}
+			}(ws)
+		}
+	}
+	// four status pollers
+	var reports int64
+	for k := 0; k < 4; k++ {
+		bg.Add(1)
+		go func() {
+			defer bg.Done()
+			for {
+				select {
+				case <-stop:
+					return
+				case <-hung:
+					return
+				default:
+				}
+				if !statsGuard(r) {
+					hungOnce.Do(func() { close(hung) })
+					return
+				}
+				atomic.AddInt64(&reports, 1)
+				time.Sleep(time.Millisecond)
+			}
+		}()
+	}
+	// eight churners: connect, say something, leave (close frame or TCP close), at most 600 in all
+	var churned int64
+	deadline := time.Now().Add(5 * time.Second)
+	for k := 0; k < 8; k++ {
+		bg.Add(1)
+		go func(k int) {
+			defer bg.Done()
+			for n := 0; time.Now().Before(deadline) && atomic.LoadInt64(&churned) < 600; n++ {
+				select {
+				case <-hung:
+					return
+				default:
+				}
+				e := "clientclose"
+				if (n+k)%2 == 1 {
+					e = "netloss"
+				}
+				i := add(Conn{Outcome: "join", Topic: 1 + (n+k)%4, HasBid: true, End: e})
+				ws, err := connect(i, 1+(n+k)%4)
+				if err != nil {
+					cmu.Lock()
+					c.Conns[i].Note = "dial failed"
+					cmu.Unlock()
+					continue
+				}
+				atomic.AddInt64(&churned, 1)
+				for m := 0; m < 3; m++ {
+					ws.SetWriteDeadline(time.Now().Add(time.Second))
+					ws.WriteMessage(websocket.BinaryMessage, []byte("hello from a passer-by"))
+				}
+				time.Sleep(time.Duration(5+n%10) * time.Millisecond)
+				if e == "clientclose" {
+					ws.WriteControl(websocket.CloseMessage, websocket.FormatCloseMessage(websocket.CloseNormalClosure, ""), time.Now().Add(time.Second))
+					ws.Close()
+				} else {
+					ws.UnderlyingConn().Close()
+				}
+			}
+		}(k)
+	}
+	select {
+	case <-hung:
+		rep.StatusHung = true
+	case <-time.After(time.Until(deadline) + 200*time.Millisecond):
+	}
+	close(stop)
+	bgDone := make(chan struct{})
+	go func() { bg.Wait(); close(bgDone) }()
+	select {
+	case <-bgDone:
+	case <-time.After(5 * time.Second):
+	}
+	rep.Reports, rep.Churned = int(atomic.LoadInt64(&reports)), int(atomic.LoadInt64(&churned))
+	if !rep.StatusHung && !statsGuard(r) {
+		rep.StatusHung = true
+	}
+	if rep.StatusHung {
+		// who is waiting for whom
+		for _, g := range strings.Split(goroutineDump(), "\n\n") {
+			if strings.Contains(g, "practable/relay/internal/crossbar") && (strings.Contains(g, "sync.(*RWMutex)") || strings.Contains(g, "sync.(*Mutex)") || strings.Contains(g, "chan send")) {
+				lines := strings.Split(g, "\n")
+				if len(lines) > 3 && len(rep.Stuck) < 1500 {
+					rep.Stuck += strings.TrimSpace(lines[0]) + " " + strings.TrimSpace(lines[1]) + " <- " + strings.TrimSpace(lines[3]) + "; "
+				}
+			}
+		}
+	} else {
+		cmu.Lock()
+		for i := range c.Conns {
+			c.Conns[i].Accepted = r.count(r.registered, fmt.Sprintf("%s-b%d", tag, i)) > 0
+			if c.Conns[i].End != "" && c.Conns[i].Note == "" {
+				c.Order = append(c.Order, i)
+			}
+		}
+		cmu.Unlock()
+		liveN := len(talkers)
+		bound := time.Now().Add(settleBound)
+		t0 := time.Now()
+		var m measure
+		for {
+			m = r.measure()
+			if m.readers-base.readers == liveN && m.writers-base.writers == liveN && m.watchers-base.watchers == liveN &&
+				len(m.topics)-len(base.topics) == liveN && m.chans-base.chans == liveN {
+				break
+			}
+			if time.Now().After(bound) {
+				break
+			}
+			time.Sleep(20 * time.Millisecond)
+		}
+		c.SettleMs = int(time.Since(t0) / time.Millisecond)
+		c.Obs = Obs{Readers: m.readers - base.readers, Writers: m.writers - base.writers, Watchers: m.watchers - base.watchers, Chan: m.chans - base.chans}
+		for _, t := range m.topics {
+			n := 9999
+			if strings.HasPrefix(t, tag+"-t") {
+				n, _ = strconv.Atoi(strings.TrimPrefix(t, tag+"-t"))
+			}
+			c.Obs.Topics = append(c.Obs.Topics, n)
+		}
+		sort.Ints(c.Obs.Topics)
+		c.Obs.Socks = (m.socks - len(talkers)) - base.socks
+		for _, ws := range talkers {
+			ws.Close()
+		}
+		r.idleResidue(c, base, false)
+		rep.Case = c
+	}
+	b, _ := json.Marshal(rep)
+	fmt.Println("CHURN-REPORT " + string(b))
+}
+
+func runChild(sub, marker string, limit time.Duration, into interface{}) error {
+	cmd := exec.Command(os.Args[0], sub)
+	var out bytes.Buffer
+	cmd.Stdout, cmd.Stderr = &out, &out
+	if err := cmd.Start(); err != nil {
+		return err
+	}
+	done := make(chan error, 1)
+	go func() { done <- cmd.Wait() }()
+	select {
+	case <-done:
+	case <-time.After(limit):
+		cmd.Process.Kill()
+		return fmt.Errorf("%s did not finish within %v", sub, limit)
+	}
+	for _, ln := range strings.Split(out.String(), "\n") {
+		if strings.HasPrefix(ln, marker+" ") {
+			return json.Unmarshal([]byte(strings.TrimPrefix(ln, marker+" ")), into)
+		}
+	}
+	tail := out.String()
+	if len(tail) > 600 {
+		tail = tail[len(tail)-600:]
+	}
+	return fmt.Errorf("no report from %s: %s", sub, tail)
 }
 
 func runShutdownChild() (shutdownReport, error) {
@@ -1222,6 +1568,10 @@ func main() {
 		shutdownChild()
 		return
 	}
+	if len(os.Args) > 1 && os.Args[1] == "churn-child" {
+		churnChild()
+		return
+	}
 	a := lib.ParseArgs()
 	res := lib.NewResult("C13", a.Seed, a.Tier)
 	rng := lib.NewRng(a.Seed)
@@ -1245,8 +1595,18 @@ func main() {
 		err error
 	}
 	sd := make(chan sdOut, 1)
+	type chOut struct {
+		rep churnReport
+		err error
+	}
+	ch := make(chan chOut, 1)
 	if a.Replay == "" {
 		go func() { r, e := runShutdownChild(); sd <- sdOut{r, e} }()
+		go func() {
+			var cr churnReport
+			e := runChild("churn-child", "CHURN-REPORT", 60*time.Second, &cr)
+			ch <- chOut{cr, e}
+		}()
 	}
 	// the translator's self-test corpus (known loop shapes with known verdicts)
 	if root := os.Getenv("VERIF_ROOT"); root != "" && a.Replay == "" {
@@ -1268,6 +1628,24 @@ func main() {
 			runHangup(r, fmt.Sprintf("s%dh%d", a.Seed, i), &cases[i])
 		} else {
 			runHistory(r, fmt.Sprintf("s%dh%d", a.Seed, i), &cases[i])
+		}
+	}
+
+	// connections coming and going while others talk and status reports are built (child process)
+	if a.Replay == "" {
+		o := <-ch
+		hist := map[string]interface{}{"history": "8 talkers sending every 2 ms on 4 topics; 8 churners connect / say 3 messages / leave (close frame or TCP close), about 600 in 5 s; 4 pollers build status reports back to back", "observed": map[string]interface{}{"status_hung": o.rep.StatusHung, "reports": o.rep.Reports, "churned": o.rep.Churned, "stuck": o.rep.Stuck}}
+		res.Extra["churn"] = hist["observed"]
+		switch {
+		case o.err != nil:
+			res.Violate(lib.Violation{Clause: "churn-scenario", Case: -1, Key: "churn-scenario-failed", Detail: o.err.Error(), Replay: hist})
+		case o.rep.StatusHung:
+			res.Violate(lib.Violation{Clause: "status-report-hangs", Case: -1, Key: "status-report-hangs",
+				Detail: fmt.Sprintf("with connections coming and going, others talking and status reports being built, a status report did not come back within 3 s after %d reports and %d connections: the relay has locked up, nothing that ends from now on is ever released. Waiting: %s", o.rep.Reports, o.rep.Churned, o.rep.Stuck), Replay: hist})
+		case o.rep.Case != nil:
+			res.Count("churn-scenario")
+			res.CountN("churn-status-reports", o.rep.Reports)
+			cases = append(cases, *o.rep.Case)
 		}
 	}
 
@@ -1324,6 +1702,20 @@ func main() {
 					res.Violate(lib.Violation{Clause: "connection-survives-shutdown", Case: -1, Key: "connection-survives-shutdown:" + kind,
 						Detail: fmt.Sprintf("2 s after close(closed) the socket of the %s peer is still open (per-connection goroutines left: %d, relay goroutines by creation site: %v)", kind, o.rep.PumpsLeft, o.rep.Left), Replay: hist})
 				}
+			}
+			for name, st := range o.rep.InFlight {
+				if st == 0 {
+					res.Violate(lib.Violation{Clause: "request-in-flight-at-shutdown-unanswered", Case: -1, Key: "request-in-flight-at-shutdown-unanswered:" + name,
+						Detail: fmt.Sprintf("the %s request whose headers were completed 300 ms after close(closed) got no answer within 3 s (answers: %v; access handlers still running at the end: %d; Relay returned after %d ms)", name, o.rep.InFlight, o.rep.HandlersLeft, o.rep.ReturnedMs), Replay: hist})
+				}
+			}
+			if o.rep.HandlersLeft > 0 {
+				res.Violate(lib.Violation{Clause: "handler-left-after-shutdown", Case: -1, Key: "handler-left-after-shutdown",
+					Detail: fmt.Sprintf("%d goroutines are still inside an access API handler seconds after close(closed) (answers to the in-flight requests: %v)", o.rep.HandlersLeft, o.rep.InFlight), Replay: hist})
+			}
+			if o.rep.ReturnedMs < 0 {
+				res.Violate(lib.Violation{Clause: "relay-did-not-return", Case: -1, Key: "relay-did-not-return",
+					Detail: "relay.Relay had not returned 6 s after close(closed)", Replay: hist})
 			}
 			if o.rep.PumpsLeft > 0 || o.rep.ClientsEnded < 3 {
 				res.Violate(lib.Violation{Clause: "connection-survives-shutdown", Case: -1, Key: "connection-survives-shutdown",
